@@ -261,9 +261,9 @@ def rand_question(rng, pool):
     return (rng.choice(pool), qt, rand_class(rng))
 
 
-def gen_message(rng, p_big=0.0):
+def gen_message(rng, p_big=0.0, big_sizes=BIG_SIZES):
     """one structured message.  p_big: probability that one octet-type record carries a large
-    RDATA (16383, 16384 or 65535 octets)."""
+    RDATA (of a size from big_sizes: 16383, 16384 or 65535 octets)."""
     pool = name_pool(rng)
     qd = rng.choice([0, 1, 1, 1, 1, 1, 2, 3])
     shape = rng.random()
@@ -280,7 +280,7 @@ def gen_message(rng, p_big=0.0):
     for c in counts:
         sec = []
         for _ in range(c):
-            sec.append(rand_rr(rng, pool, big=rng.choice(BIG_SIZES) if i == big_at else None))
+            sec.append(rand_rr(rng, pool, big=rng.choice(big_sizes) if i == big_at else None))
             i += 1
         secs.append(tuple(sec))
     return (rand_header(rng), tuple(rand_question(rng, pool) for _ in range(qd)), secs[0], secs[1], secs[2])
